@@ -1,6 +1,6 @@
 (* C12 — What coba reads from a dataset file is what the file says.  Property theorems only. *)
 From Coq Require Import ZArith List Bool.
-From Coba Require Import C12.ModelArffSparse C12.ProofsArffSparse.
+From Coba Require Import C12.ModelArffSparse C12.ProofsArffSparse C12.ModelArffAttr C12.ProofsArffAttr.
 From Coba Require Import Generated.C12_gen C12.Model C12.ModelArff C12.ProofsLines C12.ProofsRest C12.ProofsArff.
 Import ListNotations.
 Open Scope Z_scope.
@@ -62,6 +62,12 @@ Theorem arff_sparse_line_roundtrip : forall q, q = 39 \/ q = 34 -> forall pairs,
   Forall (fun kv => key_ok (fst kv) /\ val_ok (snd kv)) pairs -> sparse_parse (sparse_line q pairs) = Some pairs.
 Proof. exact sparse_line_roundtrip_lemma. Qed.
 Print Assumptions arff_sparse_line_roundtrip.
+
+(* ARFF nominal attributes: the level list of  @attribute name {l1,l2,...}  - split at commas keeping the separators, pieces of a quoted level joined again
+   while it is unclosed, stripped, unquoted, unescaped (ArffAttrReader._split) - reads levels written the Weka way back, for levels over any characters *)
+Theorem arff_nominal_levels_roundtrip : forall q, q = 39 \/ q = 34 -> forall levels, levels <> [] -> Forall val_ok levels -> levels_parse (levels_line q levels) = levels.
+Proof. exact levels_roundtrip_lemma. Qed.
+Print Assumptions arff_nominal_levels_roundtrip.
 
 Example sparse_example :
   sparse_parse (sparse_line 39 [([49], [97; 44; 32; 98]); ([50], []); ([51; 52], [120; 39; 92]); ([53], [32; 44])]) =
